@@ -6,6 +6,7 @@ import (
 
 	"github.com/sboehler/knut/lib/common/compare"
 	"github.com/sboehler/knut/lib/common/date"
+	"github.com/sboehler/knut/lib/common/dict"
 	"github.com/sboehler/knut/lib/common/multimap"
 	"github.com/sboehler/knut/lib/common/set"
 	"github.com/sboehler/knut/lib/common/table"
@@ -91,8 +92,9 @@ func (r *Report) PropagateWeights() {
 func (r *Report) SortWeighted() {
 	r.weights.PostOrder(func(n *Node) {
 		var total float64
-		for _, w := range n.Value.Weights {
-			total += w
+		// sum in date order: the result of a floating point sum depends on the order
+		for _, d := range dict.SortedKeys(n.Value.Weights, compare.Time) {
+			total += n.Value.Weights[d]
 		}
 		n.Value.Weight = -total
 	})
